@@ -66,6 +66,15 @@ type rlOpts struct {
 	Anchor   bool `json:"anchor"`   // add a `key:id62` sibling (brings buf/validate + j5 ext imports in: C07 work-around)
 	MarkForm bool `json:"markForm"` // presence as `!` / `?` mark instead of `required = true` in the body
 	EnumNums bool `json:"enumNums"` // enum options carry explicit `number = i`
+	AcroName bool `json:"acroName"` // the subject property is spelled subjectID (proto subject_id): the JSON name is the declared one
+}
+
+// rlSubject is the declared name of the subject property
+func rlSubject(o rlOpts) string {
+	if o.AcroName {
+		return "subjectID"
+	}
+	return "subject"
 }
 
 var rlEnumOptions = []string{"ALPHA", "BRAVO", "CHARLIE"} // option i has number i (1-based); 0 = COLOR_UNSPECIFIED
@@ -329,7 +338,7 @@ func rlFileText(units []rlUnit, o rlOpts) string {
 		if o.Anchor {
 			sb.WriteString("  field anchor key:id62\n\n")
 		}
-		sb.WriteString(rlFieldText("subject", u.Decl, o, "  "))
+		sb.WriteString(rlFieldText(rlSubject(o), u.Decl, o, "  "))
 		sb.WriteString("}\n\n")
 		usesEnum = usesEnum || u.Decl.Kind == "enum"
 		for _, l := range [][]int{u.Decl.In, u.Decl.NotIn, u.Decl.Dfilt} {
